@@ -695,6 +695,96 @@ func runC03(c *mc.Ctx) {
 		})
 	}
 	c.Sample("bech-string", c03Str{Prefix: "bc", Base: c03BechBase("bc", 39), Subs: []sub{{0, 1}, {38, 31}}, Via: "bech32.Decode"})
+
+	// ---- acceptance set = zero syndrome, exhaustively.  XOR-ing the 30-bit value s onto the six
+	// checksum symbols of a valid string yields a word whose syndrome is exactly s, so running all
+	// 2^30 - 1 non-zero values decides "nothing but remainder == 1 is accepted" (an extra accepted
+	// remainder is reachable by some weight-3/4 pattern in an 88-symbol window, because there are
+	// far more such patterns than syndromes).  Quick: through the hooked acceptance function;
+	// thorough: through the real bech32.Decode.
+	{
+		baseStr := c03BechBase("a", 6) // "a1" + 6 checksum symbols
+		cs := symbolsOf(baseStr[2:], ref.Bech32Charset)
+		total := int64(1)<<30 - 1
+		viaDecode := c.Thorough() || hookBechVerify == nil
+		if viaDecode && c.Quick() {
+			total = 1<<24 - 1 // black-box quick tier: low 24 bits and (below) high 24 bits only
+			c.NotExhaustive("bech32 acceptance-set sweep restricted to 2 x 2^24 syndromes (hook unavailable, quick tier)")
+		}
+		c.Space("bech32 acceptance sweep: non-zero syndromes XOR-ed onto the checksum symbols", total)
+		var bad atomic.Int64
+		c.ParFor(total, func(w *mc.W, i int64) {
+			for pass := 0; pass < 2; pass++ {
+				s := uint32(i + 1)
+				if pass == 1 {
+					if total == int64(1)<<30-1 {
+						break
+					}
+					s <<= 6
+				}
+				var sym [6]byte
+				for k := 0; k < 6; k++ {
+					sym[k] = cs[k] ^ byte(s>>(5*uint(5-k))&31)
+				}
+				accepted := false
+				if viaDecode {
+					var b [8]byte
+					b[0], b[1] = 'a', '1'
+					for k := 0; k < 6; k++ {
+						b[2+k] = ref.Bech32Charset[sym[k]]
+					}
+					_, _, err := bech32.Decode(string(b[:]))
+					accepted = err == nil
+					w.Trace()
+				} else {
+					accepted = hookBechVerify("a", sym[:])
+				}
+				w.Eval()
+				if accepted && bad.Add(1) <= 3 {
+					var subs []sub
+					for k := 0; k < 6; k++ {
+						if v := int(s >> (5 * uint(5-k)) & 31); v != 0 {
+							subs = append(subs, sub{5 - k, v})
+						}
+					}
+					c.Violate("bech32-accepts-a-nonzero-remainder", "bech-string", c03Str{Prefix: "a", Base: baseStr, Subs: subs, Via: "bech32.Decode"},
+						fmt.Sprintf("remainder %08x (relative to the valid one) is accepted", s))
+				}
+			}
+		})
+	}
+	// CashAddr has 2^40 remainders; swept here: all whose value is below 2^20 (2^24) and all whose
+	// low 20 (16) bits are zero, through the real decoder.
+	{
+		base := c03CashBase(prefix0, 42)
+		cs := symbolsOf(base, ref.CashCharset)
+		bits := mc.Pick(c, 20, 24)
+		total := int64(1)<<uint(bits) - 1
+		c.Space("cashaddr acceptance sweep: low and high remainder values XOR-ed onto the checksum symbols", 2*total)
+		var bad atomic.Int64
+		c.ParFor(total, func(w *mc.W, i int64) {
+			for pass := 0; pass < 2; pass++ {
+				s := uint64(i + 1)
+				if pass == 1 {
+					s <<= uint(40 - bits)
+				}
+				b := []byte(base)
+				var subs []sub
+				for k := 0; k < 8; k++ {
+					if v := int(s >> (5 * uint(k)) & 31); v != 0 {
+						subs = append(subs, sub{k, v})
+						b[len(b)-1-k] = ref.CashCharset[cs[len(cs)-1-k]^byte(v)]
+					}
+				}
+				_, _, err := bchutil.DecodeCashAddress(prefix0 + ":" + string(b))
+				w.Eval()
+				w.Trace()
+				if err == nil && bad.Add(1) <= 3 {
+					c.Violate("cashaddr-accepts-a-nonzero-remainder", "cash-string", c03Str{Prefix: prefix0, Base: base, Subs: subs, Via: "DecodeCashAddress"}, fmt.Sprintf("remainder %010x accepted", s))
+				}
+			}
+		})
+	}
 }
 
 func pairFromIndex(pi, L int) (int, int) {
